@@ -25,6 +25,10 @@ struct Tree {
 	excludes_file: Option<String>,           // content of core.excludesFile target
 	/// ignore files (relative paths) that are symbolic links to a regular file kept outside the origin
 	linked: Vec<String>,
+	/// ignore files of the tree (relative paths) that are *also* given explicitly
+	explicit_dups: Vec<String>,
+	/// `.git/config` has two `[core]` sections, `excludesFile` sitting in the first
+	split_core: bool,
 }
 
 fn gen_lines(rng: &mut Rng) -> String {
@@ -154,7 +158,17 @@ fn gen_tree(rng: &mut Rng) -> Tree {
 		})
 		.map(|(f, _)| f.clone())
 		.collect();
-	Tree { dirs, files, odd, explicit_ignores, explicit_watches, excludes_file, linked }
+	let candidates: Vec<String> = files
+		.iter()
+		.filter(|(f, c)| {
+			let name = f.rsplit('/').next().unwrap_or("");
+			matches!(name, ".gitignore" | ".ignore" | ".hgignore") && !c.trim().is_empty() && !f.starts_with(".git/")
+		})
+		.map(|(f, _)| f.clone())
+		.collect();
+	let explicit_dups = if !candidates.is_empty() && rng.chance(1, 6) { vec![rng.pick(&candidates).clone()] } else { vec![] };
+	let split_core = rng.chance(1, 2);
+	Tree { dirs, files, odd, explicit_ignores, explicit_watches, excludes_file, linked, explicit_dups, split_core }
 }
 
 fn materialise(root: &Path, t: &Tree, order_seed: u64) -> PathBuf {
@@ -195,7 +209,8 @@ fn materialise(root: &Path, t: &Tree, order_seed: u64) -> PathBuf {
 	if let Some(c) = &t.excludes_file {
 		let ex = root.join("explicit").join("core-excludes");
 		std::fs::write(&ex, c).unwrap();
-		std::fs::write(origin.join(".git/config"), format!("[core]\n\texcludesFile = {}\n", ex.display())).unwrap();
+		let tail = if t.split_core { "[user]\n\tname = x\n[core]\n\tbare = false\n" } else { "" };
+		std::fs::write(origin.join(".git/config"), format!("[core]\n\texcludesFile = {}\n{tail}", ex.display())).unwrap();
 	}
 	origin
 }
@@ -213,6 +228,15 @@ fn expected(root: &Path, origin: &Path, t: &Tree, vcs_deep: bool) -> Found {
 		let p = root.join("explicit").join(n);
 		out.insert((p.display().to_string(), Some(o.clone()), None));
 		sc.entries.push(IgEntry { dir: Some(String::new()), lines: read_lines(&p) });
+	}
+	// a file of the tree given explicitly as well: it is returned in both roles (explicit: applying at the origin,
+	// untyped; discovered: applying in its own directory, typed), and its lines apply in both scopes
+	for rel in &t.explicit_dups {
+		let p = origin.join(rel);
+		if nonempty(&p) {
+			out.insert((p.display().to_string(), Some(o.clone()), None));
+			sc.entries.push(IgEntry { dir: Some(String::new()), lines: read_lines(&p) });
+		}
 	}
 	if t.excludes_file.is_some() {
 		let p = root.join("explicit").join("core-excludes");
@@ -280,7 +304,7 @@ async fn discover(root: &Path, origin: &Path, t: &Tree) -> (Found, Vec<String>) 
 	let args = IgnoreFilesFromOriginArgs::new(
 		origin,
 		t.explicit_watches.iter().map(|w| watch_path(origin, w)).collect(),
-		t.explicit_ignores.iter().map(|(n, _)| root.join("explicit").join(n)).collect(),
+		t.explicit_ignores.iter().map(|(n, _)| root.join("explicit").join(n)).chain(t.explicit_dups.iter().map(|r| origin.join(r))).collect(),
 	)
 	.expect("well-formed args");
 	let (files, errors) = from_origin(args).await;
@@ -295,7 +319,7 @@ async fn discover(root: &Path, origin: &Path, t: &Tree) -> (Found, Vec<String>) 
 
 fn tree_json(t: &Tree) -> Value {
 	json!({"dirs": t.dirs, "files": t.files.iter().map(|(f, c)| json!([f, c])).collect::<Vec<_>>(), "odd_dirs": t.odd,
-		"explicit_ignores": t.explicit_ignores, "explicit_watches": t.explicit_watches, "core_excludes_file": t.excludes_file, "symlinked_ignore_files": t.linked})
+		"explicit_ignores": t.explicit_ignores, "explicit_watches": t.explicit_watches, "core_excludes_file": t.excludes_file, "symlinked_ignore_files": t.linked, "also_given_explicitly": t.explicit_dups, "two_core_sections": t.split_core})
 }
 
 pub async fn run(args: &ShardArgs, rep: &mut Report) {
